@@ -12,6 +12,7 @@ import XlModel.Lemmas.AdjustGrid
 import XlModel.Lemmas.AdjustCols
 import XlModel.Lemmas.AdjustObjs
 import XlModel.Lemmas.AdjustObjsDel
+import XlModel.Lemmas.AdjustDup
 
 namespace XlModel.Props.C06
 open XlModel XlModel.Adjust
@@ -1313,5 +1314,39 @@ theorem rejected_noop_remove_col (s s' : Sheet) (hw : WF s.rows) (ho : ObjWFSort
     have := remove_col_accepted s hw ho col num hn (hpos num hn)
     rw [h] at this
     exact absurd this hst
+
+/-- Round 5, clause "duplication relocates range-anchored objects with the row", both directions: the row the
+duplicate helpers search (`srcAfter`) is where the one-row insertion at `row2` has put the source row —
+unchanged when the target is below the source, one further down when the target is above it. -/
+theorem duplicate_source_row_tracked (row row2 : Int) (hne : row ≠ row2) :
+    srcAfter row row2 = Spec.posIns row2 1 row ∧
+    (row2 < row → srcAfter row row2 = row + 1) ∧ (row < row2 → srcAfter row row2 = row) := by
+  refine ⟨srcAfter_eq_posIns row row2 hne, ?_, ?_⟩ <;> intro h <;> unfold srcAfter <;> split <;> omega
+
+/-- Round 5, `DuplicateRowTo` on conditional formats / data validations (`duplicateConditionalFormat`,
+`duplicateDataValidations`, `duplicateSQRefHelper`), target above or below the source alike: for items whose
+references lie inside the sheet with ordered corners and are not cut at the last row by the insertion, the
+insertion step of `DuplicateRowTo` (`adjustSqItems .rows row2 1`) succeeds, and the duplicate step appends —
+after the shifted items, in order — exactly one copy per item that had a single-row reference on the
+*source row before the call*, carrying exactly those references moved to `row2` (same columns, same
+payload); items of the neighbouring rows and multi-row ranges contribute nothing. -/
+theorem duplicate_sq_copies_exact (row row2 : Int) (hne : row ≠ row2) (h2 : 1 ≤ row2 ∧ row2 ≤ maxRows)
+    (its : List SqItem)
+    (h : ∀ it ∈ its, ∀ q ∈ it.rects, rectOk q = true ∧ q.y1 ≤ q.y2 ∧ Spec.posIns row2 1 q.y2 ≤ maxRows) :
+    adjustSqItems .rows row2 1 its = (.ok, insItems row2 its) ∧
+    dupSqStep row row2 (insItems row2 its) = (.ok, insItems row2 its ++ its.filterMap (dupItem row row2)) := by
+  constructor
+  · exact adjustSqItems_ins .rows row2 1 (by omega) its
+      (fun it hit q hq => ⟨(h it hit q hq).1, (uncut_ok row2 h2.1 q (h it hit q hq)).1⟩)
+  · unfold dupSqStep
+    rw [dupSqItems_eq (srcAfter row row2) row2 h2 _ (insItems_ok row2 h2.1 its h),
+      dupItems_after_insert row row2 hne h2 its h]
+
+/-- non-vacuity and the upward witness of finding 8: CF `A3`, `A4:C4`, `A5` on rows 3, 4, 5 and a two-row range;
+`DuplicateRowTo(4, 2)` appends the copy of the row-4 format alone, on row 2 -/
+theorem witness_duplicate_upward :
+    dupSqStep 4 2 (insItems 2 [⟨[⟨1,3,1,3⟩], "a"⟩, ⟨[⟨1,4,3,4⟩], "b"⟩, ⟨[⟨1,5,1,5⟩], "c"⟩, ⟨[⟨1,3,2,4⟩], "d"⟩])
+      = (.ok, [⟨[⟨1,4,1,4⟩], "a"⟩, ⟨[⟨1,5,3,5⟩], "b"⟩, ⟨[⟨1,6,1,6⟩], "c"⟩, ⟨[⟨1,4,2,5⟩], "d"⟩, ⟨[⟨1,2,3,2⟩], "b"⟩]) := by
+  decide +kernel
 
 end XlModel.Props.C06
